@@ -3,6 +3,7 @@
 package core
 
 import (
+	"context"
 	"sync"
 	"time"
 
@@ -57,18 +58,20 @@ func init() {
 }
 
 type gatedCall struct {
-	g    *gateCtl
-	done chan error
-	at   string
+	g      *gateCtl
+	done   chan error
+	at     string
+	cancel context.CancelFunc // cancels the context the checkpoint was called with (CkCancel: a request that timed out mid-way)
 }
 
 func (r *Runner) gateStart(mode string) string {
 	g := &gateCtl{active: true, arrived: make(chan string), release: make(chan struct{})}
 	gates.Store(r.dbPath, g)
-	c := &gatedCall{g: g, done: make(chan error, 1)}
+	ctx, cancel := context.WithCancel(r.ctx)
+	c := &gatedCall{g: g, done: make(chan error, 1), cancel: cancel}
 	r.gated = c
 	ls := r.ls
-	go func() { c.done <- ls.Checkpoint(r.ctx, mode) }()
+	go func() { c.done <- ls.Checkpoint(ctx, mode) }()
 	return r.gateWait()
 }
 
@@ -94,6 +97,15 @@ func (r *Runner) gateStep() string {
 	c := r.gated.(*gatedCall)
 	c.g.release <- struct{}{}
 	return r.gateWait()
+}
+
+// gateCancel cancels the context of the in-flight checkpoint while it is parked at a hook.
+func (r *Runner) gateCancel() string {
+	if r.gated == nil {
+		return "skip"
+	}
+	r.gated.(*gatedCall).cancel()
+	return "ok"
 }
 
 // gateFinish lets an in-flight gated checkpoint run to completion.
